@@ -35,7 +35,13 @@ theorem inv4_step {P : Params} {s s' : State} (h1 : Inv1 P s) (h2 : Inv2 s) (h :
     · intro k ts st hc; rw [hp] at hc; cases hc
     · intro hc; simp [setPhase] at hc
     · intro ts d t hc; simp [setPhase] at hc
-  | execReadBase i l k reads blocked hp hr =>
+  | execReadMiss i l k reads blocked hp hr =>
+    refine inv4_quiet i h1 h rfl rfl (fun j hj => by simp [setPhase, updF, hj]) ⟨?_, ?_⟩ ⟨?_, ?_⟩
+    · intro ho; rw [hp] at ho; exact absurd ho (by simp [Owes])
+    · intro k ts st hc; rw [hp] at hc; cases hc
+    · intro hc; simp [setPhase] at hc
+    · intro ts d t hc; simp [setPhase] at hc
+  | execFetch i l k reads blocked hp =>
     refine inv4_quiet i h1 h rfl rfl (fun j hj => by simp [setPhase, updF, hj]) ⟨?_, ?_⟩ ⟨?_, ?_⟩
     · intro ho; rw [hp] at ho; exact absurd ho (by simp [Owes])
     · intro k ts st hc; rw [hp] at hc; cases hc
